@@ -104,6 +104,12 @@ type groupConsumer struct {
 	// EndTransaction.
 	offsetsAddedToTxn bool
 
+	// Bumped (under c.mu) whenever revoke invalidates everything: the
+	// end of an eager session, or leaving. The heartbeat loop revokes
+	// while the session's offset fetch may still be in flight; a fetch
+	// that began before must not assign what it fetched afterwards.
+	revokedAllN int
+
 	// If we are leader, then other members may express interest to consume
 	// topics that we are not interested in consuming. We track the entire
 	// group's topics in external, and our fetchMetadata loop uses this.
@@ -767,6 +773,7 @@ func (g *groupConsumer) revoke(stage revokeStage, lost map[string][]int32, leavi
 		// If we are an eager consumer, we stop fetching all of our
 		// current partitions as we will be revoking them.
 		g.c.mu.Lock()
+		g.revokedAllN++
 		if leaving {
 			g.c.assignPartitions(nil, assignInvalidateAll, nil, "revoking all assignments because we are leaving the group")
 		} else {
@@ -1976,6 +1983,10 @@ func (g *groupConsumer) fetchOffsets(ctx context.Context, added map[string][]int
 	// Groups format in the response rather than the v0-v7 resp.Topics
 	// because the sharder's onResp resolves TopicID -> Topic in the
 	// Groups format, and resp.Topics is a copy that may lose TopicID.
+	g.c.mu.Lock()
+	revokedAllN := g.revokedAllN
+	g.c.mu.Unlock()
+
 	var staleRetries int
 	var unknownTopicIDRetries int
 	var omittedRetries int
@@ -2378,6 +2389,15 @@ start:
 	defer g.c.mu.Unlock()
 	g.mu.Lock()
 	defer g.mu.Unlock()
+
+	// The session can have ended while we were fetching: the heartbeat
+	// loop revokes before it cancels our context. What we fetched is no
+	// longer ours; assigning it now would consume revoked partitions next
+	// to their new owners until the next rebalance.
+	if g.revokedAllN != revokedAllN {
+		g.cfg.logger.Log(LogLevelInfo, "everything was revoked while offsets were being fetched, not assigning what was fetched", "group", g.cfg.group)
+		return nil
+	}
 
 	// Eager: we already invalidated everything; nothing to re-invalidate.
 	// Cooperative: assign without invalidating what we are consuming.
